@@ -46,6 +46,9 @@ def shapes(tier):
     out.append({"poly": 3, "noff": 1, "jitter": "sampled", "units": "other"})
     # a reference epoch that is not the first observation
     out.append({"poly": 2, "noff": 0, "jitter": "constant", "units": "default", "tref": "explicit"})
+    # ... given on another time scale than TCB (UTC), and disabled
+    out.append({"poly": 2, "noff": 0, "jitter": "constant", "units": "default", "tref": "explicit_utc"})
+    out.append({"poly": 1, "noff": 0, "jitter": "sampled", "units": "other", "tref": "false"})
     # call history: setup_mcmc was already run in this model context with the same data and another choice of samples (the
     # second call returns early with the new initial point; with OTHER data the model would silently keep the first data
     # set -- C11 does not quantify over such histories, see DESIGN 7.4)
@@ -72,6 +75,10 @@ def _build(shape):
         data = [tj.RVData(t[:2], rv[:2], err[:2]), tj.RVData(t[2:], rv[2:], err[2:])]
     elif shape.get("tref") == "explicit":
         data = tj.RVData(t, rv, err, t_ref=Time(t.tcb.mjd.min() - 7.25, format="mjd", scale="tcb"))
+    elif shape.get("tref") == "explicit_utc":
+        data = tj.RVData(t, rv, err, t_ref=Time(t.tcb.mjd.min() - 7.25, format="mjd", scale="utc"))
+    elif shape.get("tref") == "false":
+        data = tj.RVData(t, rv, err, t_ref=False)
     else:
         data = tj.RVData(t, rv, err)
     vun = u.m / u.s if other else u.km / u.s
